@@ -41,14 +41,23 @@ def main():
     ctx = common.Ctx(prop, args.tier, args.seed)
     try:
         rc = mod.run(ctx)
-    except common.DriverError as e:
-        print('INFRA-ERROR %s: %s' % (prop, e))
-        traceback.print_exc()
-        sys.exit(2)
     except Exception as e:  # noqa: BLE001
-        print('INFRA-ERROR %s: %s' % (prop, e))
-        traceback.print_exc()
-        sys.exit(2)
+        # The harness could not carry the comparison through: on the unchanged tree this never happens (a check that does it
+        # there is broken); on a changed tree it means the implementation's output no longer has the shape the
+        # correspondence can interpret, i.e. the correspondence no longer checks.  Reported as such, with the traceback as replay.
+        tb = traceback.format_exc()
+        print('HARNESS-EXCEPTION %s: %s' % (prop, e))
+        print(tb)
+        if isinstance(e, (MemoryError, KeyboardInterrupt)):
+            sys.exit(2)
+        if not ctx.violations:
+            ctx.violations.append((
+                'proof obligation / correspondence no longer checks; the comparison of model and implementation could not be '
+                'completed (%s: %s)' % (type(e).__name__, str(e)[:200]),
+                {'no_failing_input_found': True, 'no_longer_checks': ['correspondence harness raised %s' % type(e).__name__],
+                 'traceback': tb[-3000:], 'first_disagreements': ctx.disagreements[:3]}))
+        rc = ctx.finish(level='proof', rule='(run aborted by an exception in the correspondence harness)',
+                        trusted=['harness/vcheck.py'], assumptions=[])
     sys.exit(rc)
 
 
